@@ -8,6 +8,25 @@ CHECKS = {
          "Every address of the stated finite scope is executed on the real morton package and compared with a bit-loop reference (value, inverse, parent, four children, encodable flag). Exhaustive within the scope; the scope is all pairs of 12-bit (quick) / 16-bit (thorough) halves in every placement plus all pairs of 1- and 2-bit patterns and boundary values above 2^32.",
          "Trusted: the 10-line bit-loop reference and its 16-bit table decomposition (self-checked at start). Not covered: defects needing >=3 specific bits spread over both halves of the same argument.", "3/C17"),
 }
+
+SNAP_NOTE = "Trusted: reference models in engine/ref (exact integer arithmetic; router self-checked against brute-force sampling), Go toolchain. Bounds: lattice window/step/vertex count of each scope as listed in the evidence; inputs above the bounds are outside. Real code executed: snap.SnapPolygon / pointindex built from /repo's working tree."
+LAT = "bounded exhaustive input search (DFS over partial lattice polygons, validity pruning only) executing the real code on every complete input, judged by an exact reference model"
+CHECKS.update({
+ "C01": ("snapmc", LAT + "; oracle: pairwise proper-crossing test of all returned boundary edges per tile matrix",
+   "Every valid polygon of each lattice scope (all simple shells with every rotation, holes, multi-level grids) x id subsets x all four flag combinations is snapped by the real code and all returned edges are tested pairwise for proper crossings in exact arithmetic. Exhaustive within the scopes; crossings that need more vertices or a finer lattice than the scopes are covered only through pinned witnesses.", SNAP_NOTE, "3/C01"),
+ "C02": ("snapmc", "exhaustive enumeration of (occupied pixel set, segment) pairs through the real PointIndex.SnapClosestPoints vs exact half-open-pixel router; plus DFS over lattice polygons comparing non-collapsing results with the routed chains",
+   "All non-empty hot sets of a 2x2 (thorough 3x3) window x all ordered pairs of quarter-pixel lattice points in hot pixels, at index depths 4..7, requested level deepest..deepest-2, five placements incl. root centre and extent corners: every tie case of that lattice is executed and compared with the reference router. Second clause: every non-collapsing valid lattice polygon must equal the routed chains.", SNAP_NOTE, "3/C02"),
+ "C04": ("snapmc", LAT + "; oracle: vertex provenance, exact edge-in-thickened-boundary clipping, exact winding-number coverage comparison at all quarter-pixel locations farther than one pixel from the boundary",
+   "All three clauses are evaluated exactly for every valid polygon of the scopes incl. three-level grids where interior locations exist.", SNAP_NOTE, "3/C04"),
+ "C18": ("snapmc", LAT + "; premise (no centre visited more than twice) evaluated by the reference router; oracle: run-of-routed-edges test, hole containment, exact signed-area equality",
+   "Every valid polygon of the scopes that satisfies the premise is executed; the three consequences are decided exactly.", SNAP_NOTE, "3/C18"),
+ "C05": ("snapmc", LAT + " over valid polygons AND every vertex sequence (repeats, 1-3 rings) of the invalid scopes, all four (keep, reverse) combinations per input; structural invariants + keep/no-keep differential",
+   "Structural invariants of every returned ring and the keep/no-keep differential are checked on every input of the scopes, valid or not.", SNAP_NOTE + " Orientation is judged only for returned rings that are simple and have non-zero area.", "3/C05"),
+ "C08": ("snapmc", LAT + " on 3- and 4-level round grids x every non-empty id subset; oracle: per-id result equals the result of requesting that id alone",
+   "Every subset of ids {0..3} is requested for every input of the scopes and compared id by id with the single-id request (presence included).", SNAP_NOTE, "3/C08"),
+ "C09": ("snapmc", "exhaustive enumeration of (grid, id, border, distance, vertex position, ring, flag) through the real snap.SnapPolygon vs half-open extent test on specified fixed-point quantisation",
+   "19 grids (two origins, both corners of origin, two depths, two tile widths, RD at three ids) x 4 borders x 42 distances from 1e-10 to the whole extent x outside/inside x every vertex position x both flag values.", "Trusted: the extent of each grid computed from its definition; quantisation as specified (1e-10, truncating).", "3/C09"),
+})
 PENDING = {}
 ALL = ["C01","C02","C03","C04","C18","C05","C06","C07","C08","C09","C10","C11","C12","C13","C14","C15","C16","C17"]
 
@@ -39,6 +58,7 @@ def main():
             "add_only": True,
         },
         "engines": [
+            {"name": "snapmc", "path": "engine/cmd/snapmc", "serves_properties": ["C01","C02","C03","C04","C05","C06","C07","C08","C09","C18"], "kind_free_text": "process-sharded DFS over lattice inputs executing the real snap/pointindex code against exact reference models (engine/ref, engine/lat, engine/grid)"},
             {"name": "bitmc", "path": "engine/cmd/bitmc", "serves_properties": ["C17"], "kind_free_text": "exhaustive bit-pattern enumeration on the real code vs bit-loop reference"},
         ],
         "checks": checks,
